@@ -356,7 +356,10 @@ fn gen_eval_over_domain(rng: &mut Rng) -> (u64, u64, u64) {
         3 => 4 * size + rng.below(7),
         _ => rng.below(6000),
     };
-    (a as u64, b, rng.below(16) as u64)
+    let c = rng.below(16) as u64;
+    // the sparse variants cost (#terms x domain size) exponentiations: keep them moderate
+    let a = if c % 4 >= 2 { a.min(2500) } else { a };
+    (a as u64, b, c)
 }
 
 fn run_lagrange(op: &Op) -> Vec<u8> {
@@ -538,25 +541,53 @@ fn gen_normalize(rng: &mut Rng) -> (u64, u64, u64) {
     (a as u64, 0, rng.below(3) as u64)
 }
 
-fn run_pairing(op: &Op) -> Vec<u8> {
+fn run_pairing_e<E: Pairing>(op: &Op) -> Vec<u8> {
     let mut rng = Rng::new(op.seed);
     let n = op.a as usize;
-    let mut ps: Vec<G1A> = vec![];
-    let mut qs: Vec<G2A> = vec![];
+    let mut ps: Vec<E::G1Affine> = vec![];
+    let mut qs: Vec<E::G2Affine> = vec![];
     for i in 0..n {
-        let p = if (op.b >> i) & 1 == 1 && i % 2 == 0 { G1::zero() } else { G1::generator() * Fr::rand(&mut rng) };
-        let q = if (op.b >> i) & 1 == 1 && i % 2 == 1 { G2::zero() } else { G2::generator() * Fr::rand(&mut rng) };
+        let p = if (op.b >> i) & 1 == 1 && i % 2 == 0 { E::G1::zero() } else { E::G1::generator() * E::ScalarField::rand(&mut rng) };
+        let q = if (op.b >> i) & 1 == 1 && i % 2 == 1 { E::G2::zero() } else { E::G2::generator() * E::ScalarField::rand(&mut rng) };
         ps.push(p.into_affine());
         qs.push(q.into_affine());
     }
-    if op.c % 2 == 0 {
-        ser(&bls::Bls12_381::multi_miller_loop(ps, qs).0)
+    if op.c & 1 == 0 {
+        ser(&E::multi_miller_loop(ps, qs).0)
     } else {
-        ser(&bls::Bls12_381::multi_pairing(ps, qs).0)
+        ser(&E::multi_pairing(ps, qs).0)
+    }
+}
+fn run_pairing(op: &Op) -> Vec<u8> {
+    match (op.c >> 1) % 6 {
+        0 => run_pairing_e::<bls::Bls12_381>(op),
+        1 => run_pairing_e::<ark_bn254::Bn254>(op),
+        2 => run_pairing_e::<ark_bls12_377::Bls12_377>(op),
+        3 => run_pairing_e::<ark_bw6_761::BW6_761>(op),
+        4 => run_pairing_e::<ark_mnt4_298::MNT4_298>(op),
+        _ => run_pairing_e::<ark_mnt6_298::MNT6_298>(op),
     }
 }
 fn gen_pairing(rng: &mut Rng) -> (u64, u64, u64) {
-    (*rng.pick(&[0u64, 1, 2, 3, 4, 5, 7, 8, 9, 10]), if rng.chance(1, 3) { rng.below(1024) as u64 } else { 0 }, rng.below(2) as u64)
+    (*rng.pick(&[0u64, 1, 2, 3, 4, 5, 7, 8, 9, 10, 12, 13]), if rng.chance(1, 3) { rng.below(8192) as u64 } else { 0 }, rng.below(12) as u64)
+}
+
+fn run_h2c(op: &Op) -> Vec<u8> {
+    use ark_ec::hashing::{curve_maps::wb::WBMap, map_to_curve_hasher::MapToCurveBasedHasher, HashToCurve};
+    use ark_ff::field_hashers::DefaultFieldHasher;
+    let mut rng = Rng::new(op.seed);
+    let msg = rng.bytes(op.a as usize);
+    let dst = b"QUUX-V01-CS02-with-BLS12381G1_XMD:SHA-256_SSWU_RO_";
+    if op.c % 2 == 0 {
+        let h = MapToCurveBasedHasher::<G1, DefaultFieldHasher<sha2::Sha256, 128>, WBMap<bls::g1::Config>>::new(dst).unwrap();
+        ser(&h.hash(&msg).unwrap())
+    } else {
+        let h = MapToCurveBasedHasher::<G2, DefaultFieldHasher<sha2::Sha256, 128>, WBMap<bls::g2::Config>>::new(dst).unwrap();
+        ser(&h.hash(&msg).unwrap())
+    }
+}
+fn gen_h2c(rng: &mut Rng) -> (u64, u64, u64) {
+    (rng.below(200) as u64, 0, rng.below(2) as u64)
 }
 
 fn run_batch_check(op: &Op) -> Vec<u8> {
@@ -729,7 +760,8 @@ pub fn kinds() -> Vec<KindInfo> {
         KindInfo { name: "msm", prop: "C14", expect: None, weight: 8, gen: gen_msm, run: run_msm, doc: "msm / msm_unchecked / msm_bigint / msm_chunks on G1, G2, Jubjub; a=#bases b=#scalars (MAX = same)" },
         KindInfo { name: "batch_mul", prop: "C14", expect: None, weight: 3, gen: gen_batch_mul, run: run_batch_mul, doc: "ScalarMul::batch_mul and BatchMulPreprocessing; a=#scalars b=table size hint" },
         KindInfo { name: "normalize", prop: "C14", expect: None, weight: 5, gen: gen_normalize, run: run_normalize, doc: "normalize_batch on SW (G1, G2) and TE; a=length" },
-        KindInfo { name: "pairing", prop: "C14", expect: None, weight: 3, gen: gen_pairing, run: run_pairing, doc: "multi_miller_loop / multi_pairing on BLS12-381; a=#pairs b=identity mask" },
+        KindInfo { name: "pairing", prop: "C14", expect: None, weight: 4, gen: gen_pairing, run: run_pairing, doc: "multi_miller_loop / multi_pairing; a=#pairs b=identity mask c: bit0 full pairing, bits1+ curve (BLS12-381, BN254, BLS12-377, BW6-761, MNT4-298, MNT6-298)" },
+        KindInfo { name: "hash_to_curve", prop: "C14", expect: None, weight: 2, gen: gen_h2c, run: run_h2c, doc: "RFC 9380 hash to BLS12-381 G1/G2 (batched inversion inside the isogeny map with pools larger than its input); a=message length" },
         KindInfo { name: "batch_check", prop: "C14", expect: None, weight: 5, gen: gen_batch_check, run: run_batch_check, doc: "Vec/array/tuple of points deserialized with Validate::Yes; a=length b=position of an out-of-subgroup point (MAX = none)" },
         KindInfo { name: "mle", prop: "C14", expect: None, weight: 4, gen: gen_mle, run: run_mle, doc: "DenseMultilinearExtension add/sub/neg/scale/relabel/fix_variables/evaluate; a=num_vars" },
         KindInfo { name: "sparse_mle", prop: "C14", expect: None, weight: 3, gen: gen_sparse_mle, run: run_sparse_mle, doc: "SparseMultilinearExtension arithmetic/fix_variables/evaluate; a=num_vars b=non-zero entries" },
